@@ -3,7 +3,12 @@
 # and prints one line per change: CAUGHT / TIE-ONLY (alarm without a concrete replay) / MISSED. Changes whose meta.json names a sibling
 # check ("caught by the Cxx check") are run through that one as well when their own check stays silent.
 cd "$(dirname "$0")/.."
+# SEED_WORKERS / SEED_WORKER: run only every SEED_WORKERS-th change starting at SEED_WORKER (several of these side by side, each with
+# its own scratch directory VSEED)
+i=0
 for d in seeded/*${1:-}*/; do
+  i=$((i+1))
+  if [ -n "${SEED_WORKERS:-}" ] && [ $((i % SEED_WORKERS)) -ne "${SEED_WORKER:-0}" ]; then continue; fi
   n=$(basename $d)
   P=$(python3 -c "import json;print(json.load(open('$d/meta.json'))['property'])")
   out=$(bash tools/seed_run.sh $(pwd)/$d $P quick 2>&1)
